@@ -199,6 +199,14 @@ Second generation (class GenR; Gen/CommitmentPolicyGen.v): functions over struct
                write; `<` `<=` `==` `!=` on u64, `==` / `!=` on Vec<u8> (bytes_eqb), `*x`, `&x`; `self.m(..)?` of a
                translated reader, `opt.map(|v| <u64 arithmetic in v>).unwrap_or(d)`, `opt.map(|(v, _)| *v)`, a tail call
                `self.m(..)` of a translated writer, `Vec::new()`; error! / warn! / info! / debug! / trace! have no effect.
+               For put_batch: parameter `Vec<KVV>` (KVV = (String, (u64, Vec<u8>)), checked in kvv.rs with into_inner);
+               a local `let mut m: BTreeMap<String, (u64, Vec<u8>)> = BTreeMap::new();`, `m.insert(k, e);`,
+               `a.or_else(|| b)` on two look-ups (opt_or_else); `let (k, (v, c)) = kvv.into_inner();`;
+               `for kvv in kvvs.into_iter() { .. }` whose body inserts into ONE local map: fold_r with that map as the
+               state - `continue` and the end of the body hand it on, `return Err(Error::VersionMismatch)` leaves the
+               function, any other way out of the loop is refused;
+               `for (k, e) in m.into_iter() { data.insert(k, e); }`: the entries of the local map in key order inserted
+               into the locked map (fold_left of bmap_insert), the local map is gone afterwards.
   refused    : a Rust binder whose name the generated text uses itself (prof, warn, policy, Val, t<digits>, gen_.., ..), a
                `let` that shadows a variable in scope, `return`, `else`
                branches of statements, `match`, `&mut`, closures anywhere else, struct literals, everything not listed.
@@ -295,6 +303,10 @@ def norm_type(t, known=None):
                 return "kvres:unit"
             if t == "Result<Option<u64>,Error>":
                 return "kvres:opt_u64"
+            if t == "Vec<KVV>":
+                return "vec:kvv"
+            if t == "BTreeMap<String,(u64,Vec<u8>)>":
+                return "bmap"
         m = re.match(r"^Option<\((u32|u64),(u32|u64)\)>$", t)
         if m:
             return "opt:tuple:%s,%s" % (m.group(1), m.group(2))
@@ -534,7 +546,17 @@ class P:
                     self.eat("(")
                     names = []
                     while not self.at(")"):
-                        names.append(self.eat(kind="id"))
+                        if self.known is not None and self.at("("):
+                            self.eat("(")               # let (a, (b, c)) = e;  one nested pair
+                            inner = []
+                            while not self.at(")"):
+                                inner.append(self.eat(kind="id"))
+                                if self.at(","):
+                                    self.eat(",")
+                            self.eat(")")
+                            names.append(("tuple_pat", inner))
+                        else:
+                            names.append(self.eat(kind="id"))
                         if self.at(","):
                             self.eat(",")
                     self.eat(")")
@@ -4244,10 +4266,11 @@ class GenKV:
     @staticmethod
     def coq_type(t):
         return {"u64": "N", "str": "(list N)", "bytes": "(list N)", "opt_u64": "(option N)", "bool": "bool",
-                "entry": "(N * list N)", "opt:entry": "(option (N * list N))", "bmap": "(bmap (N * list N))"}[t]
+                "entry": "(N * list N)", "opt:entry": "(option (N * list N))", "bmap": "(bmap (N * list N))",
+                "kvv": "(list N * (N * list N))", "vec:kvv": "(list (list N * (N * list N)))"}[t]
 
     def binder(self, x, env):
-        if not isinstance(x, str) or x in env or x in ("prof", "self", "Val", "Trap", "OkR", "ErrR", "fst", "snd") \
+        if not isinstance(x, str) or x in env or x in ("prof", "self", "Val", "Trap", "OkR", "ErrR", "fst", "snd", "d_", "kv_") \
                 or re.match(r"^t\d+$", x) or x.startswith(("gen_", "bmap_", "bytes_", "mk_", "add_", "option_")):
             raise GenError("binder %r is outside the fragment" % (x,))
         return x
@@ -4310,6 +4333,12 @@ class GenKV:
                 if (t1, t2) != ("bmap", "str"):
                     raise GenError("get on a %s with a %s" % (t1, t2))
                 return b1 + b2, "(bmap_get %s %s)" % (c1, c2), "opt:entry"
+            if name == "or_else" and len(args) == 1 and args[0][0] == "closure" and not args[0][1]:
+                b1, c1, t1 = self.expr(recv, env)           # a.or_else(|| b) with b a look-up: no effect, cannot panic
+                b2, c2, t2 = self.expr(args[0][2], env)
+                if t1 != "opt:entry" or t2 != "opt:entry" or b1 or b2:
+                    raise GenError("or_else on a %s with a %s" % (t1, t2))
+                return [], "(opt_or_else %s %s)" % (c1, c2), "opt:entry"
             if name == "map" and len(args) == 1 and args[0][0] == "closure" and args[0][1] == [("tuple_pat", ["v", "_"])] \
                     and args[0][2] == ("deref", ("var", "v")):
                 b, c, t = self.expr(recv, env)            # .map(|(v, _)| *v): the version of an entry
@@ -4353,6 +4382,8 @@ class GenKV:
 
     def ret(self, e, env):
         m = self.cur
+        if self.inloop and e != ("call", "Err", [("var", "Error::VersionMismatch")]):
+            raise GenError("fn %s: leaving the function from inside a loop other than with the error is outside the fragment" % m["name"])
         if m["ret"] == "kvres:unit":
             if e == ("call", "Ok", [("unit",)]):
                 return "Val (OkR %s)" % self.store()
@@ -4374,10 +4405,57 @@ class GenKV:
 
     def stmts(self, ss, tail, env):
         if not ss:
+            if self.inloop:
+                return "Val (OkR %s)" % self.inloop         # the end of the loop body: on to the next element
             if tail is None:
                 raise GenError("fn %s: a block without a value" % self.cur["name"])
             return self.ret(tail, env)
         s, rest = ss[0], ss[1:]
+        if s == ("expr", ("var", "continue")) and self.inloop:
+            return "Val (OkR %s)" % self.inloop
+        if s[0] == "let" and isinstance(s[1], str) and s[2] == "bmap" and s[3] == ("call", "BTreeMap::new", []) and not self.inloop:
+            x = self.binder(s[1], env)                      # a local map
+            env2 = dict(env)
+            env2[x] = "bmap"
+            self.localmaps.add(x)
+            return "let %s := [] in\n%s" % (x, self.stmts(rest, tail, env2))
+        if s[0] == "let" and self.pair_pat(s[1]) and s[2] is None and s[3][0] == "mcall" and s[3][2] == "into_inner" and not s[3][3]:
+            b, c, t = self.expr(s[3][1], env)               # let (key, (version, value)) = kvv.into_inner();
+            if t != "kvv" or b:
+                raise GenError("into_inner on a %s" % t)
+            a1, (a2, a3) = self.pair_pat(s[1])
+            env2 = dict(env)
+            env2[self.binder(a1, env2)] = "str"
+            env2[self.binder(a2, env2)] = "u64"
+            env2[self.binder(a3, env2)] = "bytes"
+            return "let '(%s, (%s, %s)) := %s in\n%s" % (a1, a2, a3, c, self.stmts(rest, tail, env2))
+        if s[0] == "for_iter" and isinstance(s[1], str) and s[2][0] == "mcall" and s[2][2] == "into_iter" and not s[2][3] and not self.inloop:
+            b, c, t = self.expr(s[2][1], env)               # for kvv in kvvs.into_iter() { .. } updating ONE local map
+            if t != "vec:kvv" or b:
+                raise GenError("a loop over a %s is outside the fragment" % t)
+            upd = self.loop_updates(s[3])
+            if len(upd) != 1 or upd[0] not in self.localmaps:
+                raise GenError("a loop that updates %s is outside the fragment" % (upd,))
+            x = self.binder(s[1], env)
+            env2 = dict(env)
+            env2[x] = "kvv"
+            self.inloop = upd[0]
+            save = (self.lockvar, self.dirty)
+            body = self.stmts(s[3], None, env2)
+            self.lockvar, self.dirty = save
+            self.inloop = None
+            return "%s <-? fold_r (fun %s %s =>\n%s) %s %s ;;\n%s" % (upd[0], upd[0], x, body, c, upd[0], self.stmts(rest, tail, env))
+        if s[0] == "for_iter" and isinstance(s[1], tuple) and s[1][0] == "tuple_pat" and len(s[1][1]) == 2 \
+                and all(isinstance(a, str) for a in s[1][1]) and s[2][0] == "mcall" and s[2][2] == "into_iter" and not s[2][3] \
+                and s[2][1][0] == "var" and s[2][1][1] in self.localmaps and s[2][1][1] in env and self.lockvar and not self.inloop \
+                and s[3] == [("expr", ("mcall", ("var", self.lockvar), "insert", [("var", s[1][1][0]), ("var", s[1][1][1])]))]:
+            # for (key, vv) in staged.into_iter() { data.insert(key, vv); } : the entries of the local map, in key order
+            for a in s[1][1]:
+                self.binder(a, env)
+            self.dirty = True
+            env2 = {a: b for a, b in env.items() if a != s[2][1][1]}       # the local map is consumed
+            return "let %s := fold_left (fun d_ kv_ => bmap_insert d_ (fst kv_) (snd kv_)) %s %s in\n%s" % (
+                self.lockvar, s[2][1][1], self.lockvar, self.stmts(rest, tail, env2))
         if s[0] == "return":
             return self.ret(s[1], env)
         if s[0] == "expr" and s[1][0] == "macro" and s[1][1] in self.LOGS:
@@ -4419,23 +4497,49 @@ class GenKV:
             self.lockvar, self.dirty = save
             else_t = self.stmts((s[3][0] if s[0] == "ifelse_stmt" else []) + rest, tail, env)
             return self.emit(b, "if %s\nthen (%s)\nelse (%s)" % (c, then_t, else_t))
-        if s[0] == "expr" and s[1][0] == "mcall" and s[1][1] == ("var", self.lockvar) and s[1][2] == "insert" and len(s[1][3]) == 2:
+        if s[0] == "expr" and s[1][0] == "mcall" and s[1][1][0] == "var" and s[1][2] == "insert" and len(s[1][3]) == 2 \
+                and (s[1][1][1] == self.lockvar or s[1][1][1] in self.localmaps) and s[1][1][1] in env \
+                and (not self.inloop or s[1][1][1] == self.inloop):
+            mv = s[1][1][1]
             b1, c1, t1 = self.expr(s[1][3][0], env)
             b2, c2, t2 = self.expr(s[1][3][1], env)
             if (t1, t2) != ("str", "entry"):
                 raise GenError("insert of a %s under a %s" % (t2, t1))
-            self.dirty = True
-            return self.emit(b1 + b2, "let %s := bmap_insert %s %s %s in\n%s" % (
-                self.lockvar, self.lockvar, c1, c2, self.stmts(rest, tail, env)))
+            if mv == self.lockvar:
+                self.dirty = True
+            return self.emit(b1 + b2, "let %s := bmap_insert %s %s %s in\n%s" % (mv, mv, c1, c2, self.stmts(rest, tail, env)))
         raise GenError("statement %r is outside the fragment" % (s,))
+
+    @staticmethod
+    def pair_pat(x):
+        """(a, (b, c)) for the pattern (a, (b, c)), else None"""
+        if isinstance(x, tuple) and x[0] == "tuple_pat" and len(x[1]) == 2 and isinstance(x[1][0], str) \
+                and isinstance(x[1][1], tuple) and x[1][1][0] == "tuple_pat" and len(x[1][1][1]) == 2 \
+                and all(isinstance(a, str) for a in x[1][1][1]):
+            return x[1][0], tuple(x[1][1][1])
+        return None
+
+    def loop_updates(self, ss):
+        """the maps a block inserts into"""
+        out = []
+        for s in ss:
+            if s[0] == "expr" and s[1][0] == "mcall" and s[1][2] == "insert" and s[1][1][0] == "var":
+                out.append(s[1][1][1])
+            elif s[0] in ("if_stmt", "iflet_stmt"):
+                out += self.loop_updates(s[2][0] if s[0] == "if_stmt" else s[3][0])
+            elif s[0] == "ifelse_stmt":
+                out += self.loop_updates(s[2][0]) + self.loop_updates(s[3][0])
+            elif s[0] in ("for_iter", "for_range"):
+                raise GenError("a nested loop is outside the fragment")
+        return sorted(set(out))
 
     def method(self, m):
         if m["selfmode"] != "ref" or m["ret"] not in ("kvres:unit", "kvres:opt_u64"):
             raise GenError("fn %s: only `&self` methods that return Result<(), Error> / Result<Option<u64>, Error>" % m["name"])
-        self.cur, self.lockvar, self.dirty, self.tmp = m, None, False, 0
+        self.cur, self.lockvar, self.dirty, self.tmp, self.inloop, self.localmaps = m, None, False, 0, None, set()
         env = {}
         for x, t in m["params"]:
-            if t not in ("str", "u64", "bytes"):
+            if t not in ("str", "u64", "bytes", "vec:kvv"):
                 raise GenError("fn %s: parameter of type %s" % (m["name"], t))
             env[self.binder(x, env)] = t
         body = self.stmts(m["body"][0], m["body"][1], env)
@@ -4463,8 +4567,11 @@ def _generate_kvv(repo):
     pm = re.sub(r"\s+", "", blank(open(os.path.join(repo, "vls-core", "src", "persist", "mod.rs")).read()))
     if not re.search(r"uselightning_signer::persist::\{[^}]*\bError\b", kv) or not re.search(r"pubenumError\{[^}]*VersionMismatch,", pm):
         raise GenError("kvv::Error is not lightning_signer::persist::Error, or that enum has no VersionMismatch")
-    known = {"Error": "enum:KvvError", "Vec": "path", "MemoryKVVStore": "struct:MemoryKVVStore"}
-    plan = ["get_version", "put_with_version", "put", "delete"]
+    known = {"Error": "enum:KvvError", "Vec": "path", "MemoryKVVStore": "struct:MemoryKVVStore", "BTreeMap": "path"}
+    if "pubstructKVV(pubString,pub(u64,Vec<u8>));" not in kv or \
+            "pubfninto_inner(self)->(String,(u64,Vec<u8>)){(self.0,self.1)}" not in kv:
+        raise GenError("kvv.rs: KVV is not (String, (u64, Vec<u8>)) with into_inner = (self.0, self.1)")
+    plan = ["get_version", "put_with_version", "put", "delete", "put_batch"]
     methods, texts = {}, {}
     for n in plan:
         texts[n] = method_source(src, None, n, header="impl KVVStore for MemoryKVVStore")
@@ -4476,7 +4583,7 @@ def _generate_kvv(repo):
         out.append("(* MemoryKVVStore::%s (kvv/memory.rs, `impl KVVStore for MemoryKVVStore`)\n%s *)\n%s" % (n, "\n".join(
             "   " + l for l in texts[n].strip().replace("(*", "( *").replace("*)", "* )").splitlines()), g.method(methods[n])))
     text = ("(** GENERATED by tools/gen_rustfn.py - do not edit.  Statement-by-statement translation of\n"
-            "      MemoryKVVStore::get_version, ::put_with_version, ::put, ::delete (vls-persist/src/kvv/memory.rs).\n"
+            "      MemoryKVVStore::get_version, ::put_with_version, ::put, ::delete, ::put_batch (vls-persist/src/kvv/memory.rs).\n"
             "    The store is its BTreeMap<String, (u64, Vec<u8>)> (Base/Rust.v bmap: sorted by the byte order of the keys);\n"
             "    Ok(()) carries the store the call leaves, Err(Error::VersionMismatch) is ErrR \"VersionMismatch\" and leaves\n"
             "    the store as it was (no translated function writes before it refuses). *)\n"
